@@ -52,7 +52,7 @@ const opTimeout = 20 * time.Second
 // implParse is the PARSE operation on the implementation.
 func implParse(name string, src []byte, wantDisasm bool) string {
 	return guarded(opTimeout, func() string {
-		var out, log bytes.Buffer
+		var out, log capBuf
 		prog, err := bcl.Parse(src, name, bcl.OptOutput(&out), bcl.OptLogger(&log),
 			bcl.OptStats(true), bcl.OptDisasm(wantDisasm))
 		text, stats, ok := splitStats(rePStats, out.Bytes())
@@ -81,9 +81,10 @@ func implParse(name string, src []byte, wantDisasm bool) string {
 }
 
 type chunkFile struct {
-	chunks [][]byte
-	i      int
-	closed atomic.Int32
+	chunks      [][]byte
+	i           int
+	closed      atomic.Int32
+	eofWithLast bool // hand the last bytes over together with io.EOF
 }
 
 // Closed waits briefly for the reader goroutine (which closes the input just
@@ -105,6 +106,9 @@ func (f *chunkFile) Read(p []byte) (int, error) {
 		}
 		f.i++
 		n := copy(p, c)
+		if f.eofWithLast && f.i == len(f.chunks) {
+			return n, io.EOF
+		}
 		return n, nil
 	}
 	return 0, io.EOF
@@ -113,12 +117,14 @@ func (f *chunkFile) Close() error { f.closed.Add(1); return nil }
 func (f *chunkFile) Name() string { return "input" }
 
 // implParseChunks is PARSEC: ParseFile with the input delivered as the given reads.
-func implParseChunks(chunks [][]byte) string {
+func implParseChunks(chunks [][]byte) string { return implParseChunksEOF(chunks, false) }
+
+func implParseChunksEOF(chunks [][]byte, eofWithLast bool) string {
 	return guarded(opTimeout, func() string {
-		var out, log bytes.Buffer
+		var out, log capBuf
 		cs := make([][]byte, len(chunks))
 		copy(cs, chunks)
-		f := &chunkFile{chunks: cs}
+		f := &chunkFile{chunks: cs, eofWithLast: eofWithLast}
 		prog, err := bcl.ParseFile(f, bcl.OptOutput(&out), bcl.OptLogger(&log), bcl.OptStats(true))
 		_, stats, ok := splitStats(rePStats, out.Bytes())
 		if !ok {
@@ -139,7 +145,7 @@ func implParseChunks(chunks [][]byte) string {
 // implRun is the RUN operation: load the dump, execute.
 func implRun(dump []byte, trace bool) string {
 	return guarded(opTimeout, func() string {
-		var out, log bytes.Buffer
+		var out, log capBuf
 		prog, err := bcl.LoadProg(bytes.NewReader(dump), "x", bcl.OptOutput(&out), bcl.OptLogger(&log))
 		if err != nil {
 			return "loaderr " + loadErrClass(err)
@@ -209,7 +215,7 @@ func chunksArg(chunks [][]byte) string {
 // implInterp is INTERP: the observable semantics of Interpret on a source.
 func implInterp(src []byte) string {
 	return guarded(opTimeout, func() string {
-		var out, log bytes.Buffer
+		var out, log capBuf
 		res, binding, err := bcl.Interpret(src, bcl.OptOutput(&out), bcl.OptLogger(&log))
 		lg := canonLog(log.Bytes())
 		if err != nil && err.Error() == "combined errors from parse" {
@@ -233,7 +239,7 @@ func unquoteGo(s string) (string, error) { return strconv.Unquote(s) }
 // implOutput: what Interpret prints (errors appended).
 func implOutput(src []byte) string {
 	return guarded(opTimeout, func() string {
-		var out bytes.Buffer
+		var out capBuf
 		_, _, err := bcl.Interpret(src, bcl.OptOutput(&out), bcl.OptLogger(io.Discard))
 		if err != nil {
 			return out.String() + "ERR " + err.Error()
@@ -246,7 +252,7 @@ func implOutput(src []byte) string {
 // and the run outcome modulo positions.
 func implInterpNoPos(src []byte) string {
 	return guarded(opTimeout, func() string {
-		var out, log bytes.Buffer
+		var out, log capBuf
 		prog, err := bcl.Parse(src, "input", bcl.OptOutput(&out), bcl.OptLogger(&log))
 		lg := rePos.ReplaceAll(canonLog(log.Bytes()), []byte("line _"))
 		if err != nil {
@@ -266,4 +272,20 @@ func implInterpNoPos(src []byte) string {
 		return fmt.Sprintf("accepted code=%s consts=%s log=%s err=%s out=%s blocks=%s binding=%s",
 			hx(code), strings.Join(cs, ","), hx(lg), e, hx(out.Bytes()), fmtBlocks(res), fmtBinding(binding))
 	})
+}
+
+// capBuf is a bytes.Buffer that stops growing after a limit, so that a diagnostic
+// loop in a hung call cannot exhaust memory before the watchdog reports the hang.
+type capBuf struct {
+	bytes.Buffer
+}
+
+const capBufLimit = 16 << 20
+
+func (b *capBuf) Write(p []byte) (int, error) {
+	if b.Buffer.Len() > capBufLimit {
+		time.Sleep(time.Millisecond) // a runaway writer: slow it down
+		return len(p), nil
+	}
+	return b.Buffer.Write(p)
 }
